@@ -1,11 +1,14 @@
 import Req.Driver.Proto
 import Req.H1.Response
 import Req.H1.Conn
+import Req.H1.ErrClass
 /-! Driver lanes of C04 (also used by C03).
 
 `c04parse <H|G> <B> <hex stream>` → canonical rendering of `parseResponse`.
 `c04chunk <B> <hex stream>` → the chunked reader alone.
 `c04mime <hex stream>` → the header block reader alone.
+`c04parseE`, `c04chunkE` → the same with the error class (`rej:<class>`, `end=err:<class>`,
+`err:<class>`): eof | status | header | te | cl | trailerkey | chunk | toolong.
 `c04conn <B> <reqs> <scripts>` → `transportRun`: a sequence of requests through the Transport over
 scripted connections.  `reqs`: comma-joined tokens `<G|H><c|k><e|n><F|P<k>>` (method HEAD or not,
 Request.Close or keep, Expect: 100-continue or not, body read fully / `k` bytes then Close).
@@ -77,6 +80,51 @@ def laneMime : List String → String
   | _ => "bad-op"
 
 
+def renderClass : ErrClass → String
+  | .eof => "eof"
+  | .statusLine => "status"
+  | .header => "header"
+  | .transferEncoding => "te"
+  | .contentLength => "cl"
+  | .trailerKey => "trailerkey"
+  | .chunk => "chunk"
+  | .tooLong => "toolong"
+
+def renderOutcomeE : OutcomeE → String
+  | .reject c => "rej:" ++ renderClass c
+  | .resp m b e =>
+    "ok proto=" ++ encodeHex m.sl.proto ++ " status=" ++ encodeHex m.sl.status ++
+    " code=" ++ toString m.sl.code ++ " ver=" ++ toString m.sl.major ++ "." ++ toString m.sl.minor ++
+    " hdr=" ++ renderMap m.header ++ " cl=" ++ toString m.contentLength ++
+    " te=" ++ renderBool m.teChunked ++ " close=" ++ renderBool m.close ++
+    " framing=" ++ renderFraming m.framing ++
+    " body=" ++ encodeHex b.data ++ " end=" ++
+      (match e with
+       | none => if b.ok then "eof" else "err:?"
+       | some c => "err:" ++ renderClass c) ++
+    " trailer=" ++ renderMap b.trailer ++
+    " rest=" ++ (if b.ok then encodeHex b.rest else "?")
+
+def laneParseE : List String → String
+  | [meth, b, hex] =>
+    match b.toNat?, decodeHex hex with
+    | some B, some s =>
+      if meth == "H" then renderOutcomeE (parseResponseE true B s)
+      else if meth == "G" then renderOutcomeE (parseResponseE false B s)
+      else "bad-op"
+    | _, _ => "bad-op"
+  | _ => "bad-op"
+
+def laneChunkE : List String → String
+  | [b, hex] =>
+    match b.toNat?, decodeHex hex with
+    | some B, some s =>
+      match decodeChunkedE B s with
+      | (d, .error c) => "err:" ++ renderClass c ++ " body=" ++ encodeHex d
+      | (d, .ok r) => "eof body=" ++ encodeHex d ++ " rest=" ++ encodeHex r
+    | _, _ => "bad-op"
+  | _ => "bad-op"
+
 def parseReq (t : String) : Option ConnReq :=
   match t.toList with
   | m :: c :: e :: rest =>
@@ -131,7 +179,9 @@ def lanes : List (String × (List String → String)) := [
   ("c04parse", laneParse),
   ("c04chunk", laneChunk),
   ("c04mime", laneMime),
-  ("c04conn", laneConn)
+  ("c04conn", laneConn),
+  ("c04parseE", laneParseE),
+  ("c04chunkE", laneChunkE)
 ]
 
 end Req.Driver.L.C04
